@@ -76,8 +76,17 @@ def make_newick(shape, n, rng):
 
 
 def make_sequences(n, sites, rng, style):
-    """Random 4-state data; 'style' controls how conserved the columns are."""
+    """Random 4-state data; 'style' controls how conserved the columns are.  'clade': the
+    first half of the taxa (a clade in the caterpillar and balanced shapes) carry identical
+    sequences, the rest is random, so that one clade keeps large partials while the other
+    underflows, until the branches are stretched."""
     cols = []
+    if style == "clade":
+        half = n // 2
+        for _ in range(sites):
+            major = rng.choice("ACGT")
+            cols.append([major] * half + [rng.choice("ACGT") for _ in range(n - half)])
+        return ["".join(cols[k][i] for k in range(sites)) for i in range(n)]
     for _ in range(sites):
         if style == "random" or rng.bernoulli(0.3):
             col = [rng.choice("ACGT") for _ in range(n)]
@@ -312,7 +321,10 @@ def generate(seed, index, tier):
     st = Streams(run_seed(seed, PROP, index))
     k = st["knobs"]
     taxa = k.choice([50, 120, 250, 330, 340, 400, 520, 560, 700, 1000, 1500]) if tier == "thorough" else k.choice([50, 120, 250, 330, 340, 400, 520, 560, 700])
-    recipe = {"taxa": taxa, "sites": k.randint(6, 24), "shape": k.choice(["caterpillar", "balanced", "random"]), "style": k.choice(["random", "conserved", "conserved"]),
+    style = k.choice(["random", "conserved", "conserved", "clade"])
+    if style == "clade":
+        taxa = k.choice([1100, 1200]) if k.bernoulli(0.5) or tier == "thorough" else taxa
+    recipe = {"taxa": taxa, "sites": k.randint(6, 24) if taxa < 1000 else k.randint(4, 8), "shape": k.choice(["caterpillar", "balanced", "random"]) if style != "clade" else k.choice(["caterpillar", "balanced"]), "style": style,
               "model": k.choice(["JC69", "HKY"]), "tip_states": k.bernoulli(0.4), "data_seed": k.next64() & 0xFFFFFFFF, "kappa": round(k.uniform(0.5, 6.0), 3),
               "categories": k.choice([1, 1, 2, 4]), "shape_value": round(k.uniform(0.3, 2.0), 3)}
     m = Machine(recipe, EventLog())
@@ -326,6 +338,11 @@ def generate(seed, index, tier):
         b = band or w.choice(avail)
         return sc[b] * math.exp(0.02 * w.normal()) if b != "subnormal" else sc[b]
 
+    if style == "clade":
+        # switch to rescaling while the identical clade still has large partials, then stretch
+        # the branches until that clade underflows on its own, then come back
+        ops += [{"op": "set", "scales": [0.0005]}, {"op": "eval"}, {"op": "set", "scales": [120.0]}, {"op": "eval"}, {"op": "eval"},
+                {"op": "set", "scales": [0.0005, 120.0]}, {"op": "eval"}]
     for i in range(n_ops):
         u = w.random()
         if u < 0.45:
